@@ -155,7 +155,13 @@ def run(prog, ctx):
         ctx.fail("P1", "extended value: a value starting with a quote is one item", g.where, "no test for an opening quote", key="quote-test-missing")
     for var, cond in qt:
         ds = grd.reaching(var.j["name"], cond)
+        ds = [d for d in ds if not (d.rhs is not None and d.rhs.is_null_const())]       # a NULL is not subscripted: that definition does not get here
         trimmed = ds and all(d.rhs is not None and d.rhs.strip().k == "CallExpr" and d.rhs.strip().j.get("callee") == "trim" for d in ds)
+        if not trimmed:
+            # the other definitions may reach the test only on paths that contradict themselves (the same NULL test taken both ways)
+            tds = [d for d in ds if d.rhs is not None and d.rhs.strip().k == "CallExpr" and d.rhs.strip().j.get("callee") == "trim" and d.node is not None]
+            later = [d for d in ds if d not in tds and d.node is not None and any(gcf.block_of(d.node) in gcf.reachable(gcf.block_of(t.node)) and d.node is not t.node for t in tds)]
+            trimmed = bool(tds) and not later and any(gcf.must_pass(t.node, cond) for t in tds)
         if trimmed:
             ctx.ok("P1", "extended value: the quote test looks at the trimmed value", cond.where, "%s = trim(...) reaches the test" % var.j["name"])
         else:
@@ -172,6 +178,19 @@ def run(prog, ctx):
             sts = [(st, st.children[1]) for lhs, rhs, st, kind in query.stores(h) if render(lhs) == dst and rhs is not None and not rhs.is_null_const()]
             if h.param(dst.lstrip("*")) is None and len(pairs) == 1:
                 sts = [(r, r.children[0]) for r in h.returns() if r.children and not r.children[0].is_null_const()]
+            # through a local that holds the copy (`before = strdup(entry.comment_before_key); ... *out = before;`)
+            from sa.dataflow import ReachingDefs as _RDh
+            rdh = _RDh(h)
+            sts2 = []
+            for st, val in sts:
+                v0 = val.strip()
+                if v0.k == "DeclRefExpr" and v0.j.get("dk") == "local":
+                    dsh = [d for d in rdh.reaching(v0.j["name"], st) if d.rhs is not None and not d.rhs.is_null_const()]
+                    if dsh:
+                        sts2.extend((st, d.rhs) for d in dsh)
+                        continue
+                sts2.append((st, val))
+            sts = sts2
             srcs = set()
             for st, val in sts:
                 for x in val.walk():
@@ -232,7 +251,24 @@ def run(prog, ctx):
     else:
         ctx.fail("P3", "a relative name is resolved with realpath()", gap.where, "no realpath(path) call: relative names stay relative in econf_getPath / extended values",
                  key="realpath-missing")
-    if len(rp) == 1:
+    if len(rp) == 1 and rp[0].call_args()[1].is_null_const():
+        # realpath(path, NULL): the resolved name is the heap string the call returns
+        up9 = rp[0].up()
+        tgt9 = render(up9.children[0]) if up9 is not None and up9.k == "BinaryOperator" and up9.j.get("op") == "=" else (
+            up9.j["decls"][0]["name"] if up9 is not None and up9.k == "DeclStmt" else None)
+        fail_edges = [(b, i) for (b, i, s2) in gcfg.edges() if gcfg.edge_lit(b, i) is not None and (
+            "realpath" in gcfg.edge_lit(b, i).atom or gcfg.edge_lit(b, i).atom == tgt9) and not gcfg.edge_lit(b, i).pol]
+        after = gcfg.reachable(gcfg.block_of(rp[0]), avoid_edges=fail_edges)
+        rets9 = [r2 for r2 in gap.returns() if r2.children and not r2.children[0].is_null_const() and gcfg.block_of(r2) in after]
+        redefs = [st9 for l9, r9, st9 in gap.assignments() if not isinstance(l9, dict) and render(l9) == tgt9 and st9 is not up9
+                  and gcfg.block_of(st9) in after and gcfg.block_of(st9) != gcfg.block_of(rp[0])]
+        clean = gcfg.reachable(gcfg.block_of(rp[0]), avoid_edges=fail_edges, avoid_blocks=[gcfg.block_of(st9) for st9 in redefs])
+        if tgt9 and rets9 and all(render(r2.children[0]) == tgt9 and gcfg.block_of(r2) in clean for r2 in rets9):
+            ctx.ok("P3", "the resolved name is what is returned", rp[0].where, "`%s = realpath(path, NULL)` is what the relative branch returns" % tgt9)
+        else:
+            ctx.fail("P3", "the resolved name is what is returned", rp[0].where,
+                     "realpath(path, NULL) is called but its result is not what is returned: relative names are stored as given", key="realpath-result-unused")
+    elif len(rp) == 1:
         bufarg = render(rp[0].call_args()[1])
         good = set(gcfg.block_of(c) for c in gap.calls(("strdup", "strndup")) if c.call_args() and render(c.call_args()[0]) == bufarg)
         rets_nonnull = [r2 for r2 in gap.returns() if r2.children and not r2.children[0].is_null_const()]
@@ -274,7 +310,7 @@ def run(prog, ctx):
         ctx.fail("P4", "every store() call gets the current line number", L.store_calls[0].where, "calls pass different expressions: %s" % sorted(L.line_args), key="line-args")
     st = L.store_fn
     scfg = st.cfg
-    ls = [s for lhs, rhs, s, kind in query.stores(st) if render(lhs).endswith(".line_number")]
+    ls = [s for lhs, rhs, s, kind in query.stores(st) if render(lhs).endswith(".line_number") and not query.is_slot_init(s)]
     app = [(b, i) for (b, i, s) in scfg.edges() if scfg.edge_lit(b, i) is not None and scfg.edge_lit(b, i).atom == "append_entry"]
     branches = {"new entry": False, "continuation": False}
     for s in ls:
@@ -354,6 +390,18 @@ def run(prog, ctx):
             t = render(x)
             if (name + " + 1") in t:
                 ctx.ok("P6", "a before-key comment is the line without its comment character", x.where, t[:70])
+            elif name not in t:
+                # built by a helper (realloc + memcpy ...): the text copied in that helper instance must be name + 1
+                tag = x.j.get("inlined_from")
+                copies = [c9 for c9 in rf.calls(("memcpy", "memmove", "mempcpy", "strcpy", "stpcpy", "strcat", "snprintf", "asprintf")) if c9.within(L.loop)
+                          and (tag is None or c9.j.get("inlined_from") == tag) and abs(c9.line - x.line) < 40]
+                srcs9 = [render(a9) for c9 in copies for a9 in c9.call_args()[1:]]
+                if any((name + " + 1") in s9 for s9 in srcs9):
+                    ctx.ok("P6", "a before-key comment is the line without its comment character", x.where, "copied from %s + 1 by the helper that builds the buffer" % name)
+                elif any(name in s9 for s9 in srcs9):
+                    ctx.fail("P6", "a before-key comment is the line without its comment character", x.where, "the helper copies %s" % [s9 for s9 in srcs9 if name in s9][:2], key="before-text")
+                else:
+                    ctx.inconclusive("P6", "a before-key comment is the line without its comment character", x.where, "records %s: source of the text not found" % t[:70])
             else:
                 ctx.fail("P6", "a before-key comment is the line without its comment character", x.where, "records %s" % t[:70], key="before-text")
     else:
